@@ -68,7 +68,7 @@ struct Case {
   vsched::Config sc;
   uint64_t dataseed;
 };
-const char *KIND[] = {"real-enc", "real-dec", "real-verify", "tag-enc", "tag-dec", "forged-dec", "enc-eio", "dec-eio"};
+const char *KIND[] = {"real-enc", "real-dec", "real-verify", "tag-enc", "tag-dec", "forged-dec", "enc-eio", "dec-eio", "enc-enospc", "dec-enospc"};
 const char *STRAT[] = {"uniform", "sticky", "pct", "starve"};
 
 std::string case_json(const Case &c, long long idx) {
@@ -90,7 +90,7 @@ Case make_case(uint64_t seed, long long idx, const std::string &grid, bool thoro
     long off = (long)r.below(19) - 17;
     long nn = (long)base + off;
     c.n = nn < 0 ? (size_t)r.below(3) : (size_t)nn;
-    c.kind = (int)r.below(8);
+    c.kind = (int)r.below(10);
   } else {
     c.T = Ts[r.below(5)];
     size_t chunks = r.below(7);
@@ -133,7 +133,21 @@ std::string run_case(const Case &c) {
   vsched::init(c.sc, failfn);
   vsched::install_cpu_handler();
   bool ret = true;
-  if (c.kind == 6 || c.kind == 7) {
+  if (c.kind == 8 || c.kind == 9) {
+    // the OUTPUT stream starts failing with ENOSPC at its k-th write (disk full, unbuffered so that the error surfaces
+    // while other chunks are still in flight): failure is the right result, but the operation must return
+    ops::EncParams ep;
+    ep.cmode = c.cmode; ep.hmode = c.hmode; ep.T = c.T;
+    memcpy(ep.key, key, 16);
+    ep.seed = seed;
+    size_t k = 1 + (size_t)(c.dataseed % 9);
+    if (c.kind == 8) ret = ops::encrypt(P, ep, 0, false, 0, k + 4).ret; // header writes come first
+    else {
+      bytes F = ref::wenc_reference(P, key, c.cmode, c.hmode, seed.data(), seed.size(), c.T, ch);
+      ret = ops::decrypt_or_verify(true, F, key, c.T, false, 0, 0, k).ret;
+    }
+    vsched::finish();
+  } else if (c.kind == 6 || c.kind == 7) {
     // the input stream starts failing with EIO at its k-th read call (dead disk): any result is acceptable, but the
     // operation must return
     ops::EncParams ep;
